@@ -90,7 +90,8 @@ def gen_workload(draw):
             # switch probability per KIND of yield point (lock hand-over, SQL statement, function
             # call, between requests): reaches windows that need a switch exactly at a lock
             # release or exactly at a statement
-            pol = {"lock-release": draw(st.sampled_from([0, 50, 100, 100])),
+            pol = {"recv": draw(st.sampled_from([0, 0, 20, 60])),
+                   "lock-release": draw(st.sampled_from([0, 50, 100, 100])),
                    "lock-acquire": draw(st.sampled_from([0, 30, 100])),
                    "sql": draw(st.sampled_from([0, 5, 30])),
                    "call": draw(st.sampled_from([0, 2, 10, 30])),
@@ -163,7 +164,9 @@ def concurrent_run(spec, choices):
     results = []
     for ci, c in enumerate(spec["clients"]):
         data = b"".join(frame_bytes(fr) for fr in c["frames"])
-        conn = H.FakeConnection(data, None, H.make_cert((c["who"],), "client"))
+        # the transport delivers each message in pieces and every recv() is a switch point
+        # (the harness owns the transport, so it owns this part of the schedule too)
+        conn = SchedConnection(s, data, spec.get("chunks") or [5, 3, 64, 17, 200], H.make_cert((c["who"],), "client"))
         sess = session_mod.KmipSession(eng, conn, ("127.0.0.1", 5696), name="c10-%d" % ci)
         conns.append(conn)
         res = []
@@ -186,6 +189,16 @@ def concurrent_run(spec, choices):
         fns.append(fn)
     ok = s.run(fns, timeout=25.0)
     return srv, s, results, ok
+
+
+class SchedConnection(H.FakeConnection):
+    def __init__(self, sch, data, chunks, cert):
+        H.FakeConnection.__init__(self, data, chunks, cert)
+        self._sch = sch
+
+    def recv(self, n):
+        self._sch.yield_point("recv")
+        return H.FakeConnection.recv(self, n)
 
 
 class SeqSearch(object):
